@@ -404,6 +404,25 @@ func (n *NilRules) Check(fns []*ssa.Function, ruleField, ruleSrc string) {
 						n.R.Bad(rule, cons, p.InstrPos(in), why)
 					}
 				}
+				// a pointer that a dependency hands back together with an error is nil when the error is not: a deferred
+				// closure that dereferences it must be registered after the error was tested (registered before, it runs
+				// on the error return as well)
+				if df, ok := in.(*ssa.Defer); ok && ruleSrc != "" {
+					if mc, ok := df.Call.Value.(*ssa.MakeClosure); ok {
+						cl, _ := mc.Fn.(*ssa.Function)
+						for bi, bind := range mc.Bindings {
+							call := errPairedSource(bind)
+							if call == nil || cl == nil || bi >= len(cl.FreeVars) || !closureDerefs(cl.FreeVars[bi]) {
+								continue
+							}
+							k := call.Call.Signature().Results().Len() - 1
+							nm := fmt.Sprintf("isnil(%s#%d)", fc.AP(call), k)
+							cons := fmt.Sprintf("%s: deferred use of the result of %s", p.FnName(fn), calleeName(&call.Call))
+							okD := n.A.B.HasVar(nm) && fc.Implied(b, n.A.B.Var(nm))
+							n.R.Check(okD, ruleSrc, cons, p.InstrPos(in), "registered under the nil error of that call", "the deferred function dereferences a result that is nil when the call failed, and it is registered before the error is tested: on the failure path it runs with a nil pointer and panics")
+						}
+					}
+				}
 				// returning a maybe-nil lookup as the success value
 				if ret, ok := in.(*ssa.Return); ok && ruleSrc != "" && len(ret.Results) == 2 && errIndex(fn) == 1 && isNilConst(ret.Results[1]) {
 					v := ret.Results[0]
@@ -420,4 +439,66 @@ func (n *NilRules) Check(fns []*ssa.Function, ruleField, ruleSrc string) {
 			}
 		}
 	}
+}
+
+// errPairedSource: v is (the variable holding) result #0, a pointer, of a call into a dependency whose last result is an
+// error; gives that call.
+func errPairedSource(v ssa.Value) *ssa.Call {
+	if al, ok := v.(*ssa.Alloc); ok {
+		var st ssa.Value
+		n := 0
+		for _, rf := range *al.Referrers() {
+			if s, ok := rf.(*ssa.Store); ok && s.Addr == ssa.Value(al) {
+				st = s.Val
+				n++
+			}
+		}
+		if n != 1 {
+			return nil
+		}
+		v = st
+	}
+	ex, ok := v.(*ssa.Extract)
+	if !ok || ex.Index != 0 {
+		return nil
+	}
+	c, ok := ex.Tuple.(*ssa.Call)
+	if !ok {
+		return nil
+	}
+	res := c.Call.Signature().Results()
+	if res.Len() < 2 || types.TypeString(res.At(res.Len()-1).Type(), nil) != "error" {
+		return nil
+	}
+	if _, isPtr := res.At(0).Type().Underlying().(*types.Pointer); !isPtr {
+		return nil
+	}
+	if sc := c.Call.StaticCallee(); sc != nil && strings.HasPrefix(sc.String(), "(*"+modPath) || sc != nil && strings.HasPrefix(sc.String(), modPath) {
+		return nil // module functions are judged by their own returns
+	}
+	return c
+}
+
+// closureDerefs: the function literal reads through its captured variable fv (a field, a method call on the pointee).
+func closureDerefs(fv *ssa.FreeVar) bool {
+	for _, rf := range *fv.Referrers() {
+		ld, ok := rf.(*ssa.UnOp)
+		if !ok {
+			if _, isFA := rf.(*ssa.FieldAddr); isFA {
+				return true
+			}
+			continue
+		}
+		for _, r2 := range *ld.Referrers() {
+			switch y := r2.(type) {
+			case *ssa.FieldAddr, *ssa.Field:
+				return true
+			case *ssa.Call:
+				if len(y.Call.Args) > 0 && y.Call.Args[0] == ssa.Value(ld) && y.Call.StaticCallee() != nil && y.Call.StaticCallee().Signature.Recv() != nil {
+					return true
+				}
+			}
+		}
+	}
+	return false
 }
